@@ -305,6 +305,7 @@ class EventModel:
 
 
 _CUR = {}
+_ADDR = re.compile(r' at 0x[0-9a-fA-F]+')
 
 
 def _existing(ident):
@@ -693,6 +694,19 @@ def generate(rng, tier, prop='C20'):
             [['tick', rng.randint(0, 4)], ['drop', 'o0'], ['tick', 1]],
             [['drop', 'o0'], ['tick', rng.randint(0, 4)], ['regain', 'r1', 0], [op[0], 'r1', op[1], op[2]]]]}]
         bad = []
+    if focus is None and rng.random() < 0.1:
+        # str() of a Namespace (the server formats it attribute by attribute) while another client adds and
+        # removes attributes
+        focus = 'ns-repr'
+        objects = [{'t': 'ns', 'late': False}]
+        v = [uniq() for _ in range(6)]
+        clients = [{'parent': None, 'objs': [0], 'how': 'spawn', 'threads': [
+            [['call', 'o0', 'setattr', ['x', v[0]]], ['call', 'o0', 'setattr', ['y', v[1]]],
+             ['call', 'o0', '__str__', []], ['call', 'o0', '__str__', []], ['call', 'o0', '__str__', []]],
+            [['tick', rng.randint(0, 3)], ['call', 'o0', 'setattr', ['x', v[2]]], ['call', 'o0', 'delattr', ['y']],
+             ['call', 'o0', 'setattr', ['y', v[3]]], ['call', 'o0', 'delattr', ['x']],
+             ['call', 'o0', 'setattr', ['x', v[4]]]]]}]
+        bad = []
     return {'key': key.hex(), 'objects': objects, 'clients': clients, 'bad': bad, 'focus': focus,
             'short_io': rng.random() < 0.3, 'pipe_cap': rng.choice([256, 4096, 65536]),
             'keep_tb': rng.random() < 0.3, 'policy': rng.choice(POLICIES),
@@ -811,9 +825,12 @@ def execute(case, seed, choices=None):
     if case.get('focus') == 'decref-window':
         # the window between the last decrement of a referent's count and its disposal
         k.enable_func_preemption(('billiard/managers.py',), ('decref',), 0.7, 0.9)
+    elif case.get('focus') == 'ns-repr':
+        k.enable_func_preemption(('billiard/managers.py',), ('__repr__',), 0.7, 0.9)
     elif case.get('line_prob'):
         # a server thread can lose the processor between any two lines of the reference-counting code
-        k.enable_func_preemption(('billiard/managers.py',), ('create', 'incref', 'decref', '_incref', '_decref'),
+        k.enable_func_preemption(('billiard/managers.py',), ('create', 'incref', 'decref', '_incref', '_decref',
+                                                             '__repr__'),
                                  case['line_prob'])
     import hmac
     import billiard.managers as M
@@ -941,7 +958,7 @@ def execute(case, seed, choices=None):
         seq[0] += 1
         rec['e'] = seq[0]
         rec['out'] = out
-        k.record('E', oid, who, repr(out))
+        k.record('E', oid, who, _ADDR.sub(' at 0x?', repr(out)))     # (a failed __str__ falls back to a repr with an address)
         return out
 
     def create_obj(m, oid):
